@@ -48,10 +48,12 @@ struct H {
     else if (r.name == "r_new") newEst((int)(a % NES), (r.a[1] & 1) != 0 && (a & 4) != 0);
     --depth;
   }
-  void newEst(int s, bool live) {
+  void newEst(int s, bool live, bool numeric = false) {
     if (est[s]) return;
     EstCb* e = new EstCb; e->h = this; e->slot = s; e->expectConnect = live;
-    e->handle = srv->connect(String("localhost"), (uint16)(live ? port : closedPort), *e);
+    // (a host given as dotted numbers takes the direct path: no look-up, same obligations)
+    e->handle = srv->connect(String(numeric ? "127.0.0.1" : "localhost"), (uint16)(live ? port : closedPort), *e);
+    if (numeric) ctx->label("host_as_numbers");
     if (!e->handle) { delete e; ctx->count("connect_call_failed"); return; }
     est[s] = e; ctx->label(live ? "by_name_to_listener" : "by_name_to_closed_port");
   }
@@ -110,7 +112,7 @@ void pbt_run(const Case& cs, Ctx& ctx) {
   for (const Op& op : cs.ops) {
     ctx.opIndex = idx++;
     long a = op.a[0] < 0 ? -op.a[0] : op.a[0], b = op.a[1] < 0 ? -op.a[1] : op.a[1];
-    if (op.name == "est") h.newEst((int)(a % NES), (b & 7) == 0);   // mostly to the closed port: a refused attempt leaves no TIME_WAIT entry behind, and the look-up is the same
+    if (op.name == "est") h.newEst((int)(a % NES), (b & 7) == 0, op.a[2] == 7);   // mostly to the closed port: a refused attempt leaves no TIME_WAIT entry behind, and the look-up is the same
     else if (op.name == "rm") h.removeEst((int)(a % NES), "script");
     else if (op.name == "run") { h.runFor(1 + b % 4); ctx.label("run"); }
     else if (op.name == "wait") { usleep((useconds_t)(b % 8) * 150); }
